@@ -559,7 +559,9 @@ def check_spec(sess, obs):
                     want = [[None, [["const", fixed[kind[1]]]], 1]]
                 else:
                     want = [[[kind[1], v], [["const", v]], 1] for v in cands]
-                got = brs if sess["mode"] == "path" else sorted(brs, key=lambda b: cands.index(b[1][0][1]) if b and len(b) > 1 and b[1] and b[1][0][0] == "const" and b[1][0][1] in cands else -1)
+                got = brs
+                if sess["mode"] == "cheat":  # the order in which a run yields its final states is not part of the property
+                    got, want = sorted(brs, key=repr), sorted(want, key=repr)
                 if got != want:
                     lone = len(brs) == 1 and len(brs[0]) > 1 and brs[0][1] and brs[0][1][0][0] == "sym"
                     what = (f"{fs}: the length word of {pname!r} (offset {off}) was loaded as the unconstrained symbol {brs[0][1][0][1]} on a single path; "
@@ -625,7 +627,9 @@ def check_model(sess, obs, mo):
         if brs is None:
             continue
         mine = [[b[0][1] if b[0] else None, b[1]] for b in mbrs]
-        theirs = brs if sess["mode"] == "path" else sorted(brs, key=lambda b: sz.index(b[0]) if b[0] in sz else -1)
+        theirs = brs
+        if sess["mode"] == "cheat":
+            mine, theirs = sorted(mine, key=repr), sorted(brs, key=repr)
         if mine != theirs:
             return [f"path: calldataload of size symbol #{j}: model {str(mine)[:120]} implementation {str(theirs)[:120]}"]
     if sess["mode"] == "cheat" and obs.get("next") != mo["next"]:
